@@ -864,7 +864,11 @@ def run_segment(plan, ctx, detail=False, table=None):
                     lit_tb, lit_state = compiled_table("lit", lambda: specialise(ua["src"], a["values"]))
                     if lit_tb is not None:
                         probe("literal_form_" + ("agrees" if (lit_tb[0] == hdr and lit_tb[1] == rows) else "differs_(front_end_matter)"))
-                    if b1 is False and violation is None:
+                    if b1 is False and violation is None and "fault" in a:
+                        # an injected out-of-range value that bind() happened to accept: Python's arithmetic on
+                        # it is not what the library promises for the declared width; no verdict
+                        probe("accepted_illegal_value_differs_from_python_(no_verdict)")
+                    elif b1 is False and violation is None:
                         # who is responsible? the same program with the parameters kept as typed arguments
                         agree = typed_form_agrees()  # does the typed-argument form give the same rows as bind?
                         if agree is False:
